@@ -1,6 +1,220 @@
-// mesh kinds -- filled in by the corresponding check (see /verif/CONVENTIONS.md).
+// Mesh kinds (C19): histories of operations on one Mesh1D<T,T> / Mesh2D<T>.
+//   mesh.hist1 <nvars> <nodes> (<op> <args> ;)*
+//   mesh.hist2 <nvars> <xnodes> <ynodes> (<op> <args> ;)*
+// After every op: the op's result (if any) or P<class> if it panicked; the op `dump` reads the whole
+// state back through the public API.  An op that may have written part of its effect before
+// panicking ends the history (the model does the same).
+// Nodes of a Mesh2D are f64 in the library; they are carried exactly in the element type of the
+// run (a dyadic rational in the exact tier).  Only the public API of ohsl is used.
 #![allow(unused_imports, dead_code)]
+use std::any::Any;
+use std::panic::{catch_unwind, AssertUnwindSafe};
+use ohsl::{Mesh1D, Mesh2D, Vector, Matrix, Cmplx};
 use crate::io::{Args, Out, Elt};
-pub fn run<T: Elt>(kind: &str, _a: &mut Args, _out: &mut Out) {
-    panic!("harness: unknown kind {}", kind);
+use crate::rat::Rat;
+use crate::fnast;
+
+fn to_f64<T: Elt>(x: &T) -> f64 {
+    let a = x as &dyn Any;
+    if let Some(v) = a.downcast_ref::<f64>() { return *v; }
+    if let Some(r) = a.downcast_ref::<Rat>() {
+        let v = (r.n as f64) / (r.d as f64);
+        // must be exact: the model carries the rational
+        let back = f64_to_rat(v);
+        if back.n != r.n || back.d != r.d { panic!("harness: node {}/{} is not an f64", r.n, r.d); }
+        return v;
+    }
+    if let Some(c) = a.downcast_ref::<Cmplx>() { return c.real; }
+    panic!("harness: to_f64");
+}
+
+fn f64_to_rat(x: f64) -> Rat {
+    if x == 0.0 { return Rat::int(0); }
+    if !x.is_finite() { panic!("ratovf"); }
+    let bits = x.to_bits();
+    let sign: i128 = if (bits >> 63) == 1 { -1 } else { 1 };
+    let e = ((bits >> 52) & 0x7ff) as i32;
+    let frac = (bits & 0xfffffffffffff) as i128;
+    let (mut m, mut ex) = if e == 0 { (frac, -1074) } else { (frac | (1i128 << 52), e - 1075) };
+    while m % 2 == 0 { m /= 2; ex += 1; }
+    if ex >= 0 {
+        if ex > 60 { panic!("ratovf"); }
+        Rat::new(sign * (m << ex), 1)
+    } else {
+        if -ex > 100 { panic!("ratovf"); }
+        Rat::new(sign * m, 1i128 << (-ex))
+    }
+}
+
+fn from_f64<T: Elt>(x: f64) -> T {
+    let mut out = T::zero();
+    {
+        let a = &mut out as &mut dyn Any;
+        if let Some(v) = a.downcast_mut::<f64>() { *v = x; }
+        else if let Some(r) = a.downcast_mut::<Rat>() { *r = f64_to_rat(x); }
+        else if let Some(c) = a.downcast_mut::<Cmplx>() { *c = Cmplx::new(x, 0.0); }
+        else { panic!("harness: from_f64"); }
+    }
+    out
+}
+
+fn nodes_f64<T: Elt>(v: &Vector<T>) -> Vector<f64> {
+    let mut r = Vec::new();
+    for i in 0..v.size() { r.push(to_f64(&v[i])); }
+    Vector::create(r)
+}
+fn emit_f64_vec<T: Elt>(v: &Vector<f64>, out: &mut Out) {
+    out.usize(v.size());
+    for i in 0..v.size() { from_f64::<T>(v[i]).emit(out); }
+}
+
+fn dump1<T: Elt>(m: &Mesh1D<T, T>, out: &mut Out) {
+    out.usize(m.nvars());
+    out.v(&m.nodes());
+    for k in 0..m.nnodes() { out.v(&m[k]); }
+}
+fn dump1x<T: Elt>(m: &Mesh1D<T, f64>, out: &mut Out) {
+    out.usize(m.nvars());
+    emit_f64_vec::<T>(&m.nodes(), out);
+    for k in 0..m.nnodes() { out.v(&m[k]); }
+}
+fn dump2<T: Elt>(m: &Mesh2D<T>, out: &mut Out) {
+    out.usize(m.nvars());
+    let (nx, ny) = m.nnodes();
+    out.usize(nx); out.usize(ny);
+    emit_f64_vec::<T>(&m.xnodes(), out);
+    emit_f64_vec::<T>(&m.ynodes(), out);
+    for i in 0..nx { for j in 0..ny { out.v(&m[(i, j)]); } }
+}
+
+// the file as written: number of lines, then per line the number of whitespace tokens and the tokens
+// parsed with f64::from_str (the parser the library's reader uses)
+fn emit_file(path: &str, out: &mut Out) {
+    let text = std::fs::read_to_string(path).unwrap_or_else(|_| panic!("harness: cannot read back {}", path));
+    let mut lines: Vec<&str> = text.split('\n').collect();
+    if let Some(l) = lines.last() { if l.is_empty() { lines.pop(); } }
+    out.usize(lines.len());
+    for l in lines {
+        let toks: Vec<&str> = l.split_whitespace().collect();
+        out.usize(toks.len());
+        for t in toks {
+            let x: f64 = t.parse().unwrap_or_else(|_| panic!("harness: unparsable token {} in {}", t, path));
+            out.f(x);
+        }
+    }
+}
+
+fn as_f64_1<T: Elt>(m: &mut Mesh1D<T, T>) -> &mut Mesh1D<f64, f64> {
+    (m as &mut dyn Any).downcast_mut::<Mesh1D<f64, f64>>().unwrap_or_else(|| panic!("harness: f64-only mesh op"))
+}
+fn as_f64_2<T: Elt>(m: &mut Mesh2D<T>) -> &mut Mesh2D<f64> {
+    (m as &mut dyn Any).downcast_mut::<Mesh2D<f64>>().unwrap_or_else(|| panic!("harness: f64-only mesh op"))
+}
+
+fn step1<T: Elt>(m: &mut Mesh1D<T, T>, op: &str, a: &mut Args, out: &mut Out) {
+    match op {
+        "set" => { let k = a.usize(); let v = a.v::<T>(); m.set_nodes_vars(k, v); }
+        "get" => { let k = a.usize(); let v = m.get_nodes_vars(k); out.v(&v); }
+        "idx" => { let k = a.usize(); let v = m[k].clone(); out.v(&v); }
+        "idxset" => { let k = a.usize(); let v = a.v::<T>(); m[k] = v; }
+        "idxelem" => { let k = a.usize(); let var = a.usize(); let x = a.s::<T>(); m[k][var] = x; }
+        "coord" => { let k = a.usize(); let x = m.coord(k); out.s(&x); }
+        "nnodes" => { out.usize(m.nnodes()); }
+        "dump" => { dump1(m, out); }
+        "interp" => { let x = a.f64(); let v = as_f64_1(m).get_interpolated_vars(x); out.v(&v); }
+        "trap" => { let var = a.usize(); let s = as_f64_1(m).trapezium(var); out.f(s); }
+        "file" => { let prec = a.usize(); let path = a.word(); let nv2 = a.usize(); let nodes2 = a.v::<f64>();
+            let mf = as_f64_1(m);
+            mf.output(path, prec);
+            emit_file(path, out);
+            let mut m2 = Mesh1D::<f64, f64>::new(nodes2, nv2);
+            m2.read(path);
+            dump1(&m2, out);
+            let _ = std::fs::remove_file(path); }
+        "reread" => { let prec = a.usize(); let path = a.word();
+            let mf = as_f64_1(m);
+            mf.output(path, prec);
+            emit_file(path, out);
+            mf.read(path);
+            let _ = std::fs::remove_file(path);
+            dump1(m, out); }
+        _ => panic!("harness: unknown mesh1 op {}", op),
+    }
+}
+fn ends1(op: &str) -> bool { matches!(op, "idxelem" | "file" | "reread") }
+
+fn step2<T: Elt>(m: &mut Mesh2D<T>, op: &str, a: &mut Args, out: &mut Out) {
+    match op {
+        "set" => { let i = a.usize(); let j = a.usize(); let v = a.v::<T>(); m.set_nodes_vars(i, j, v); }
+        "get" => { let i = a.usize(); let j = a.usize(); let v = m.get_nodes_vars(i, j); out.v(&v); }
+        "idx" => { let i = a.usize(); let j = a.usize(); let v = m[(i, j)].clone(); out.v(&v); }
+        "idxset" => { let i = a.usize(); let j = a.usize(); let v = a.v::<T>(); m[(i, j)] = v; }
+        "idxelem" => { let i = a.usize(); let j = a.usize(); let var = a.usize(); let x = a.s::<T>(); m[(i, j)][var] = x; }
+        "assign" => { let x = a.s::<T>(); m.assign(x); }
+        "xsec" => { let i = a.usize(); let s = m.cross_section_xnode(i); dump1x(&s, out); }
+        "ysec" => { let j = a.usize(); let s = m.cross_section_ynode(j); dump1x(&s, out); }
+        "varmat" => { let var = a.usize(); let mm = m.var_as_matrix(var); out.m(&mm); }
+        "apply" => { let e = fnast::parse::<T>(a.word()); let var = a.usize();
+            let f = move |x: f64, y: f64| -> T { fnast::eval(&e, &[from_f64::<T>(x), from_f64::<T>(y)]) };
+            m.apply(&f, var); }
+        "coord" => { let i = a.usize(); let j = a.usize(); let (x, y) = m.coord(i, j);
+            from_f64::<T>(x).emit(out); from_f64::<T>(y).emit(out); }
+        "nnodes" => { let (nx, ny) = m.nnodes(); out.usize(nx); out.usize(ny); }
+        "dump" => { dump2(m, out); }
+        "trap" => { let var = a.usize(); let s = as_f64_2(m).trapezium(var); out.f(s); }
+        "sqtrap" => { let var = a.usize(); let s = as_f64_2(m).square_trapezium(var); out.f(s); }
+        "file" => { let prec = a.usize(); let path = a.word();
+            as_f64_2(m).output(path, prec); emit_file(path, out); let _ = std::fs::remove_file(path); }
+        "filevar" => { let prec = a.usize(); let path = a.word(); let var = a.usize();
+            as_f64_2(m).output_var(path, var, prec); emit_file(path, out); let _ = std::fs::remove_file(path); }
+        _ => panic!("harness: unknown mesh2 op {}", op),
+    }
+}
+fn ends2(op: &str) -> bool { matches!(op, "idxelem" | "assign" | "apply" | "file" | "filevar") }
+
+// returns Some(class) if the step panicked with a library panic; re-raises machinery panics
+fn guarded<F: FnOnce()>(f: F) -> Option<&'static str> {
+    let r = catch_unwind(AssertUnwindSafe(f));
+    if r.is_err() {
+        let msg = crate::LAST_PANIC.with(|p| p.borrow().clone());
+        let cls = crate::classify(&msg);
+        if cls == "harness" || cls == "ratovf" { panic!("{}", msg); }
+        return Some(cls);
+    }
+    None
+}
+
+pub fn run<T: Elt>(kind: &str, a: &mut Args, out: &mut Out) {
+    match kind {
+        "mesh.hist1" => {
+            let nvars = a.usize();
+            let nodes = a.v::<T>();
+            let mut m = Mesh1D::<T, T>::new(nodes, nvars);
+            while a.more() {
+                let op = a.word();
+                let p = guarded(|| step1(&mut m, op, a, out));
+                while a.more() { if a.word() == ";" { break; } }
+                if let Some(cls) = p {
+                    out.toks.push(format!("P{}", cls));
+                    if ends1(op) { break; }
+                }
+            }
+        }
+        "mesh.hist2" => {
+            let nvars = a.usize();
+            let xs = a.v::<T>();
+            let ys = a.v::<T>();
+            let mut m = Mesh2D::<T>::new(nodes_f64(&xs), nodes_f64(&ys), nvars);
+            while a.more() {
+                let op = a.word();
+                let p = guarded(|| step2(&mut m, op, a, out));
+                while a.more() { if a.word() == ";" { break; } }
+                if let Some(cls) = p {
+                    out.toks.push(format!("P{}", cls));
+                    if ends2(op) { break; }
+                }
+            }
+        }
+        _ => panic!("harness: unknown kind {}", kind),
+    }
 }
